@@ -35,14 +35,19 @@ MUTANTS = [
     # ---- C05
     ("C05", "branch-arms-swapped-template", "R05.1", D + "Effects/Branch.py", "f\"BRANCH({cond}, {self.then.effect_var()}, {self.otherwise.effect_var()})\"", "f\"BRANCH({cond}, {self.otherwise.effect_var()}, {self.then.effect_var()})\""),
     ("C05", "selection-arms-swapped-callback", "R05.1", T, "                self.add_op(Branch(name, cond, then_seq, else_seq))", "                self.add_op(Branch(name, cond, else_seq, then_seq))"),
-    ("C05", "for-step-before-body", "R05.1", T, "self.take_pending_effects(flatten_list(items[4])) + [items[3]],", "[items[3]] + self.take_pending_effects(flatten_list(items[4])),"),
-    ("C05", "for-init-inside", "R05.1", T, "self.add_op(Sequence(f\"seq\", [items[1], loop]))", "self.add_op(Sequence(f\"seq\", [loop, items[1]]))"),
+    ("C05", "for-step-before-body", "R05.1", T, "self.take_pending_effects(flatten_list(items[4]))\n                    + flatten_list([items[3]]),", "flatten_list([items[3]])\n                    + self.take_pending_effects(flatten_list(items[4])),"),
+    ("C05", "for-init-inside", "R05.1", T, "self.add_op(Sequence(f\"seq\", flatten_list([items[1]]) + [loop]))", "self.add_op(Sequence(f\"seq\", [loop] + flatten_list([items[1]])))"),
     ("C05", "seqn-count-plus-one", "R05.2", D + "Effects/Sequence.py", "f'SEQN({len(self.effects)}, ", "f'SEQN({len(self.effects) + 1}, "),
     ("C05", "seqn-reversed", "R05.2", D + "Effects/Sequence.py", "\", \".join([e.effect_var() for e in self.effects])", "\", \".join([e.effect_var() for e in reversed(self.effects)])"),
     ("C05", "sub-assign-add", "R05.4", T, "                    f\"op_SUB\",\n                    self.promotion_cast(assign.dest),\n                    self.promotion_cast(assign.src),\n                    ArithmeticType.SUB,", "                    f\"op_SUB\",\n                    self.promotion_cast(assign.dest),\n                    self.promotion_cast(assign.src),\n                    ArithmeticType.ADD,"),
     ("C05", "top-level-reversed", "R05.3", T, "for op in self.imm_set_effect_list + left_hybrids + flatten_list(items)", "for op in self.imm_set_effect_list + left_hybrids + list(reversed(flatten_list(items)))"),
     ("C05", "setl-src-dest-swapped", "R05.5", D + "Effects/Assignment.py", "            return f\"SETL({self.dest.vm_id()}, {read})\"", "            return f\"SETL({read}, {self.dest.vm_id()})\""),
     ("C05", "chained-outer-first", "R05.6", T, "self.add_op(Sequence(\"seq\", [items[2], assignment]))", "self.add_op(Sequence(\"seq\", [assignment, items[2]]))"),
+    ("C15", "for-step-list-not-flattened", "R15.1", T, "                    + flatten_list([items[3]]),", "                    + [items[3]],"),
+    ("C15", "for-init-list-not-flattened", "R15.1", T, "flatten_list([items[1]]) + [loop]", "[items[1], loop]"),
+    ("C09", "fold-result-not-wrapped", "R09.2", T, "        result = wrap_to_type(result, a_type)\n        self.il_ops_holder.rm_op_by_name(a.get_name())\n        self.il_ops_holder.rm_op_by_name(b.get_name())", "        self.il_ops_holder.rm_op_by_name(a.get_name())\n        self.il_ops_holder.rm_op_by_name(b.get_name())"),
+    ("C09", "compare-raw-values", "R09.2", T, "        val_a = wrap_to_type(a.get_val(), common_type)\n        val_b = wrap_to_type(b.get_val(), common_type)", "        val_a = a.get_val()\n        val_b = b.get_val()"),
+    ("C09", "fold-floor-division-inexact", "R09.2", T, "                if val_b == 0 or val_a % val_b != 0:", "                if val_b == 0:"),
     # ---- C06
     ("C06", "postfix-exec-then-set", "R06.1", D + "Hybrids/PostfixIncDec.py", "        self.seq_order = HybridSeqOrder.SET_VAL_THEN_EXEC", "        self.seq_order = HybridSeqOrder.EXEC_THEN_SET_VAL"),
     ("C06", "resolve-orders-swapped", "R06.1", T, "            h_seq = [set_tmp, hybrid]\n        elif hybrid.seq_order == HybridSeqOrder.EXEC_THEN_SET_VAL:\n            h_seq = [hybrid, set_tmp]", "            h_seq = [hybrid, set_tmp]\n        elif hybrid.seq_order == HybridSeqOrder.EXEC_THEN_SET_VAL:\n            h_seq = [set_tmp, hybrid]"),
